@@ -301,8 +301,119 @@ fn multi_function_cases() -> Vec<Case> {
     out
 }
 
+/// canonical form of one raw word for the grammar-free comparison: inside a word, every byte after a NUL byte is
+/// cleared ("only bytes after a string's NUL terminator may differ"; applied to both sides, so equal words stay equal)
+fn canon_word(w: u32) -> u32 {
+    let b = w.to_le_bytes();
+    match b.iter().position(|&x| x == 0) {
+        Some(p) => {
+            let mut c = [0u8; 4];
+            c[..p].copy_from_slice(&b[..p]);
+            u32::from_le_bytes(c)
+        }
+        None => w,
+    }
+}
+
+/// frames a word stream by its word counts; None if the framing is broken
+fn frame_raw(ws: &[u32]) -> Option<Vec<Vec<u32>>> {
+    let mut out = vec![];
+    let mut i = 0;
+    while i < ws.len() {
+        let n = (ws[i] >> 16) as usize;
+        if n == 0 || i + n > ws.len() {
+            return None;
+        }
+        out.push(ws[i..i + n].iter().map(|&w| canon_word(w)).collect());
+        i += n;
+    }
+    Some(out)
+}
+
+/// Grammar-free oracle for ANY byte string the loader accepts (corrupted binaries included): the assembled output
+/// carries the input's version and bound, and its instructions are exactly the input's instructions as a multiset
+/// (same opcode, same word count, same words up to bytes after a NUL inside a word); in the same order when the loaded
+/// module is reloaded; reloading gives an equal module. Returns (violation, label, accepted).
+pub fn raw_check(id: &str, what: &str, bytes: &[u8]) -> (Option<Viol>, String, bool) {
+    let rep = json!({"kind": "bytes", "bytes": hex(bytes), "seed": id, "corruption": what});
+    let class = what.split(|c| c == ':' || c == '@').next().unwrap_or("").to_string();
+    let loaded = match guarded(|| dr::load_bytes(bytes)) {
+        Err(p) => return (Some(viol(format!("C01:panic@{}", crate::report::panic_class(&p)), format!("{} {}: load_bytes panics: {}", id, what, p), rep)), "panic".into(), false),
+        Ok(Err(_)) => return (None, "not-loadable".into(), false),
+        Ok(Ok(m)) => m,
+    };
+    let input: Vec<u32> = bytes.chunks_exact(4).map(|c| u32::from_le_bytes([c[0], c[1], c[2], c[3]])).collect();
+    let g = golden();
+    let opc = |n: &str| g.opcode(n) as u32;
+    let body = &input[5..];
+    let Some(fin) = frame_raw(body) else {
+        return (Some(viol(format!("C01:raw:accepted-misframed:{}", class), format!("{} {}: the loader accepted a binary whose word counts do not frame it", id, what), rep)), "misframed".into(), true);
+    };
+    // the two excluded classes, decided on the raw stream
+    if fin.iter().filter(|i| i[0] & 0xFFFF == opc("MemoryModel")).count() > 1 {
+        return (None, "excluded:second-memory-model".into(), true);
+    }
+    let (mut in_f, mut in_b) = (false, false);
+    for i in &fin {
+        let o = i[0] & 0xFFFF;
+        if o == opc("Function") {
+            in_f = true;
+        } else if o == opc("FunctionEnd") {
+            in_f = false;
+            in_b = false;
+        } else if o == opc("Label") {
+            in_b = true;
+        } else if g.lookup(o as u16).map_or(false, |gi| g.in_class("terminator", &gi.name)) {
+            in_b = false;
+        } else if (o == opc("Line") || o == opc("NoLine")) && in_f && !in_b {
+            return (None, "excluded:line-outside-block".into(), true);
+        }
+    }
+    let out = match guarded(|| loaded.assemble()) {
+        Err(p) => return (Some(viol(format!("C01:panic@{}", crate::report::panic_class(&p)), format!("{} {}: assemble panics: {}", id, what, p), rep)), "panic".into(), true),
+        Ok(o) => o,
+    };
+    if out.len() < 5 || out[0] != g.magic || out[1] != (input[1] & 0x00FF_FF00) || out[3] != input[3] {
+        return (Some(viol(format!("C01:raw:header:{}", class), format!("{} {}: output header {:x?}, input header {:x?}", id, what, &out[..out.len().min(5)], &input[..5]), rep)), "roundtrip".into(), true);
+    }
+    let Some(fout) = frame_raw(&out[5..]) else {
+        return (Some(viol(format!("C01:raw:output-misframed:{}", class), format!("{} {}: the assembled output is not framed by its word counts", id, what), rep)), "roundtrip".into(), true);
+    };
+    let (mut a, mut b) = (fin.clone(), fout.clone());
+    a.sort();
+    b.sort();
+    if a != b {
+        let kind = if b.len() < a.len() { "dropped" } else if b.len() > a.len() { "duplicated-or-invented" } else { "words-differ" };
+        let diff: Vec<&Vec<u32>> = a.iter().filter(|x| !b.contains(x)).take(2).collect();
+        return (Some(viol(format!("C01:raw:{}:{}", kind, class), format!("{} {}: the assembled instructions are not the input's ({} in, {} out); input instructions without a counterpart: {:x?}", id, what, a.len(), b.len(), diff), rep)), "roundtrip".into(), true);
+    }
+    match guarded(|| dr::load_words(&out)) {
+        Err(p) => return (Some(viol(format!("C01:panic@{}", crate::report::panic_class(&p)), format!("{} {}: reloading the output panics: {}", id, what, p), rep)), "panic".into(), true),
+        Ok(Err(e)) => return (Some(viol(format!("C01:raw:reload-fails:{}", class), format!("{} {}: the assembled output does not load: {}", id, what, crate::util::state_name(&e)), rep)), "roundtrip".into(), true),
+        Ok(Ok(m2)) => {
+            if snap(&m2) != snap(&loaded) {
+                return (Some(viol(format!("C01:raw:reload-differs:{}", class), format!("{} {}: reloaded module {} differs from the first {}", id, what, snap(&m2).brief(), snap(&loaded).brief()), rep)), "roundtrip".into(), true);
+            }
+            // an output is in layout order: assembling the reloaded module gives the same words
+            let out2 = m2.assemble();
+            if out2 != out {
+                return (Some(viol(format!("C01:raw:not-identical:{}", class), format!("{} {}: the output, itself in layout order, does not come back word-identical", id, what), rep)), "roundtrip".into(), true);
+            }
+        }
+    }
+    (None, "roundtrip".into(), true)
+}
+
 pub fn run(tier: Tier) -> Run {
     let mut run = Run::new("C01", tier, "exploration");
+    // ---- every corrupted binary of the C03 universe the loader still accepts, against the grammar-free oracle
+    let sw = crate::checks::c03::sweep(tier, &|id, m| raw_check(id, &m.what, &m.bytes));
+    for v in sw.viols.iter().cloned() {
+        run.add(v);
+    }
+    for (o, c) in &sw.outcomes {
+        run.outcome(&format!("raw:{}", o), *c);
+    }
     let mut cs = cases(tier);
     cs.extend(multi_function_cases());
     let res: Vec<(Vec<Viol>, &'static str)> = cs.par_iter().map(check_case).collect();
@@ -402,15 +513,17 @@ pub fn run(tier: Tier) -> Run {
             run.outcome(&format!("seq:{}", o), c);
         }
     }
-    run.set("evaluations", json!(n));
-    run.set("distinct_nontrivial", json!(loaded));
-    run.set("rule", json!("(a) every U-inst shape of every opcode embedded in the smallest loadable module for its class (module-level classes also out of layout order, after the function); (b) every word over the 21-class alphabet up to length L in ANY order; (c) strings of every length with garbage after the NUL; (d) literals of every width behind their types, switches through selector chains; (e) 2-3 function modules with parameters, 1-2 blocks, each terminator, module-level instructions between functions. Loaded -> assembled must equal header(version, bound) ++ reference re-encoding in layout-sorted order; reloading must give an equal module. non-trivial = inputs the loader accepted and that went through the whole round trip (all distinct by construction)"));
+    run.set("evaluations", json!(n + sw.evaluations));
+    run.set("distinct_nontrivial", json!(loaded + sw.accepted));
+    run.set("rule", json!("(a) every U-inst shape of every opcode embedded in the smallest loadable module for its class (module-level classes also out of layout order, after the function); (b) every word over the 21-class alphabet up to length L in ANY order; (c) strings of every length with garbage after the NUL; (d) literals of every width behind their types, switches through selector chains; (e) 2-3 function modules with parameters, 1-2 blocks, each terminator, module-level instructions between functions. (f) every binary of the C03 corruption universe that the loader still accepts, against the grammar-free oracle (same header fields, same multiset of raw instructions up to bytes after a NUL, reload equal, second assembly identical). Loaded -> assembled must equal header(version, bound) ++ reference re-encoding in layout-sorted order; reloading must give an equal module. non-trivial = inputs the loader accepted and that went through the whole round trip (all distinct by construction)"));
     run.set("exhaustive", json!(true));
     run.set("bounds", json!({"structured_cases": cs.len(), "sequence_length": l, "sequence_alphabet": SYMBOLS.len()}));
     run.set("excluded", json!({"line_outside_block": run.outcomes.get("excluded:line-outside-block").copied().unwrap_or(0) + run.outcomes.get("seq:excluded:line-outside-block").copied().unwrap_or(0), "second_memory_model": run.outcomes.get("seq:excluded:second-memory-model").copied().unwrap_or(0)}));
     run.set("samples", json!(cs.iter().step_by(cs.len() / 6 + 1).map(|c| json!({"case": c.id, "instructions": c.insts.iter().map(|i| i.short()).collect::<Vec<_>>()})).collect::<Vec<_>>()));
     run.assume("layout sorter = the A.4 module model (golden class table); the parser's instruction models are C02/C03's business and taken as given here");
     run.require_outcome("roundtrip");
+    run.require_outcome("raw:roundtrip");
+    run.require_outcome("raw:not-loadable");
     run.require_outcome("seq:roundtrip");
     run.require_outcome("seq:not-loadable");
     run.require_outcome("seq:excluded:line-outside-block");
